@@ -5,6 +5,7 @@ package desync
 
 import (
 	"bytes"
+	"strconv"
 	"context"
 	"path"
 	"io"
@@ -94,3 +95,26 @@ const (
 	verifSipNative0 = 0xb64acab6ca921906
 	verifSipNative1 = 0x7bb732386086886b
 )
+
+func VerifSelf_C02Debug() {
+	vFSYield(false)
+	data := verifPattern(300, 100, 150, false)
+	dir := vTempDir()
+	name := dir + "/in"
+	os.WriteFile(name, data, 0644)
+	want := verifSequentialIndex(data, 48, 64, 72)
+	idx, _, err := IndexFromFile(context.Background(), name, 3, 48, 64, 72, NullProgressBar{})
+	s := "want:"
+	for _, c := range want {
+		s += " " + strconv.Itoa(int(c.Start)) + "+" + strconv.Itoa(int(c.Size))
+	}
+	s += " got:"
+	for _, c := range idx.Chunks {
+		s += " " + strconv.Itoa(int(c.Start)) + "+" + strconv.Itoa(int(c.Size))
+	}
+	if err != nil {
+		s += " err"
+	}
+	vNote(s)
+	vCover("x")
+}
